@@ -76,6 +76,8 @@ theorem judgeNF_ok {p p' : Bool} {r d : Expr} (h : Subs.judgeNF p p' r d = .ok) 
   unfold Subs.judgeNF at h
   split at h
   · cases h
+  split at h
+  · cases h
   · cases h
   · rename_i h1 h2
     by_cases heq : NF.equivF (NF.normT r) (NF.normT d) = true
@@ -111,7 +113,8 @@ theorem certificate_sound {K : Type*} [Field K] [CharZero K] {I : K} (hI : I * I
 /-- non-vacuity: for `(x + 1)**2` with `x ↦ y - 1` the library's `y**2` is accepted -/
 theorem ex_judge_ok : Subs.judge true false [(.sym "x", .add (.int (-1)) [(.sym "y", .int 1)])]
     (.pow (.add (.int 1) [(.sym "x", .int 1)]) (.int 2)) (.pow (.sym "y") (.int 2)) = .ok := by
-  simp [Subs.judge, Subs.judgeNF, Subs.unsupported, Subs.unsupportedPairs, Subs.unsupportedSigma, hasCplxKey,
+  simp [Subs.judge, Subs.judgeNF, Diff.affordable, Diff.est, Diff.estFacs, Diff.estTerms, Diff.capMul, Diff.capPow,
+    Diff.capN, Subs.unsupported, Subs.unsupportedPairs, Subs.unsupportedSigma, hasCplxKey,
     subsE, subsTerms, lookup, Memo.find, Expr.eqb, termKey, powNode, powKey, Option.orElse,
     NF.firstErr, NF.firstErrTerms, NF.powErr, NF.orElseErr, NF.maxExp, NF.normT, NF.normTerms, NF.intLit?, NF.mulF,
     NF.addF, NF.powF, NF.npowF, NF.atomF, NF.constF, NF.zeroF, NF.equivF, NF.patom, NF.pone, NF.pzero, NF.pconst,
